@@ -10,9 +10,11 @@ def archive_cases(seed, count, big):
     if exe is None:
         return None, err
     rc, out = sh([exe, 'archive', str(seed), str(count), str(big)], timeout=300)
+    lines = [l for l in out.split('\n') if l.startswith(('V ', 'J '))]
     if rc != 0:
-        return None, out[-1500:]
-    return [l for l in out.split('\n') if l.startswith(('V ', 'J '))], None
+        # the harness died inside the real archive: the case after the last one printed is the failing input
+        return None, 'exit status %s after %d cases; last case completed: %s\n%s' % (rc, len(lines), (lines[-1][:300] if lines else '-'), out[-1200:])
+    return lines, None
 
 def hexlist(h):
     return '[' + '; '.join(str(int(h[i:i + 2], 16)) for i in range(0, len(h), 2)) + ']' if h != '-' else '[]'
@@ -103,7 +105,8 @@ def run(tier, seed, replay=None):
         count, big = (340, 20000) if tier == 'quick' else (3400, 60000)
         lines, err = archive_cases(seed, count, big)
         if lines is None:
-            return {'ok': False, 'msg': 'codec harness failed', 'failures': [{'what': 'codec harness does not build/run', 'log': err}]}
+            return {'ok': False, 'msg': 'codec harness failed', 'failures': [{'what': 'codec harness does not build, or the real archive aborted / crashed while round-tripping a generated value (%s)' % err.split('\n')[0][:200], 'log': err,
+                                                                              'replay': 'build/codec archive %d %d %d' % (seed, count, big)}]}
         fails = []
         for l in lines:
             if 'rt=1' not in l or (l.startswith('V ') and 'rest=1' not in l):
